@@ -329,10 +329,27 @@ func (s *Sess) fnMem(elem string) string {
 	s.decl("fn:"+name, hintMark+name+";"+fmt.Sprintf(
 		"(declare-fun %s ((GSeq %s) %s) Bool)\n(declare-fun %s ((GSeq %s) %s) Int)\n"+
 			"(assert (forall ((s (GSeq %s)) (i Int)) (! (=> (and (<= 0 i) (< i (sq.len s))) (%s s (select (sq.arr s) i))) :pattern ((select (sq.arr s) i)))))\n"+
-			"(assert (forall ((s (GSeq %s)) (x %s)) (! (=> (%s s x) (and (<= 0 (%s s x)) (< (%s s x) (sq.len s)) (= (select (sq.arr s) (%s s x)) x))) :pattern ((%s s x)))))",
+			"(assert (forall ((s (GSeq %s)) (x %s)) (! (=> (%s s x) (and (<= 0 (%s s x)) (< (%s s x) (sq.len s)) (= (select (sq.arr s) (%s s x)) x))) :pattern ((%s s x)))))\n"+
+			"(assert (forall ((s (GSeq %s))) (! (=> (> (sq.len s) 0) (%s s (select (sq.arr s) 0))) :pattern ((sq.len s)))))",
 		name, elem, elem, idx, elem, elem,
 		elem, name,
-		elem, elem, name, idx, idx, idx, name))
+		elem, elem, name, idx, idx, idx, name,
+		elem, name))
+	return name
+}
+
+// fnIndex: slices.Index as an uninterpreted function with its defining axioms
+// (least index of x in s, or -1).
+func (s *Sess) fnIndex(elem string) string {
+	name := "sidx_" + sanitize(elem)
+	mem := s.fnMem(elem)
+	s.decl("fn:"+name, hintMark+name+";"+fmt.Sprintf(
+		"(declare-fun %s ((GSeq %s) %s) Int)\n"+
+			"(assert (forall ((s (GSeq %s)) (x %s)) (! (and (>= (%s s x) (- 1)) (< (%s s x) (sq.len s)) (ite (%s s x) (and (>= (%s s x) 0) (= (select (sq.arr s) (%s s x)) x)) (= (%s s x) (- 1)))) :pattern ((%s s x)))))\n"+
+			"(assert (forall ((s (GSeq %s)) (x %s) (j Int)) (! (=> (and (<= 0 j) (< j (%s s x))) (not (= (select (sq.arr s) j) x))) :pattern ((%s s x) (select (sq.arr s) j)))))",
+		name, elem, elem,
+		elem, elem, name, name, mem, name, name, name, name,
+		elem, elem, name, name))
 	return name
 }
 
@@ -355,9 +372,18 @@ func (s *Sess) fnSubset(elem string) string {
 
 func (s *Sess) fnSeqeq(elem string) string {
 	name := "seqeq_" + sanitize(elem)
+	if s.declSet["fn:"+name] {
+		return name
+	}
+	mem := s.fnMem(elem)
 	s.decl("fn:"+name, fmt.Sprintf(
-		"(define-fun %s ((a (GSeq %s)) (b (GSeq %s))) Bool (and (= (sq.len a) (sq.len b)) (forall ((i Int)) (=> (and (<= 0 i) (< i (sq.len a))) (= (select (sq.arr a) i) (select (sq.arr b) i))))))",
-		name, elem, elem))
+		"(declare-fun %s ((GSeq %s) (GSeq %s)) Bool)\n"+
+			"(assert (forall ((a (GSeq %s)) (b (GSeq %s))) (! (= (%s a b) (and (= (sq.len a) (sq.len b)) (forall ((i Int)) (=> (and (<= 0 i) (< i (sq.len a))) (= (select (sq.arr a) i) (select (sq.arr b) i)))))) :pattern ((%s a b)))))",
+		name, elem, elem, elem, elem, name, name))
+	// content-equal sequences have the same members (hint: only when membership is used)
+	s.decl("ax:"+name+":mem", hintMark+mem+";"+fmt.Sprintf(
+		"(assert (forall ((a (GSeq %s)) (b (GSeq %s)) (x %s)) (! (=> (%s a b) (= (%s a x) (%s b x))) :pattern ((%s a b) (%s a x)) :pattern ((%s a b) (%s b x)))))",
+		elem, elem, elem, name, mem, mem, name, mem, name, mem))
 	return name
 }
 
@@ -478,11 +504,25 @@ type solverSpec struct {
 	args func(file string, timeoutS int) []string
 }
 
+// The race: solver instability (the same query proved in 0.2 s with one random
+// seed and timing out with another) is countered by racing seeds and versions.
 var solvers = []solverSpec{
 	{"z3-new", func(f string, t int) []string { return []string{"z3-new", fmt.Sprintf("-T:%d", t), f} }},
 	{"z3", func(f string, t int) []string { return []string{"z3", fmt.Sprintf("-T:%d", t), f} }},
 	{"cvc5", func(f string, t int) []string {
 		return []string{"cvc5", "--incremental", fmt.Sprintf("--tlimit=%d", t*1000), f}
+	}},
+	{"z3-new/seed1", func(f string, t int) []string {
+		return []string{"z3-new", fmt.Sprintf("-T:%d", t), "smt.random_seed=1", f}
+	}},
+	{"z3-new/seed2", func(f string, t int) []string {
+		return []string{"z3-new", fmt.Sprintf("-T:%d", t), "smt.random_seed=2", f}
+	}},
+	{"z3-new/seed3", func(f string, t int) []string {
+		return []string{"z3-new", fmt.Sprintf("-T:%d", t), "smt.random_seed=3", f}
+	}},
+	{"z3/seed7", func(f string, t int) []string {
+		return []string{"z3", fmt.Sprintf("-T:%d", t), "smt.random_seed=7", f}
 	}},
 }
 
@@ -589,12 +629,27 @@ func writeQuery(dir, name string, decls, facts []string, goal string, wantModel 
 			}
 		}
 		ptxt := plain.String() + dtxt.String()
-		for i, d := range decls {
-			if strings.HasPrefix(d, hintMark) {
-				rest := d[len(hintMark):]
+		// hint facts that will be included may themselves mention other hinted symbols
+		for _, f := range facts {
+			if strings.HasPrefix(f, hintMark) {
+				rest := f[len(hintMark):]
 				k := strings.Index(rest, ";")
 				if strings.Contains(ptxt, "("+rest[:k]+" ") {
-					declHints[i] = true
+					ptxt += rest[k+1:]
+				}
+			}
+		}
+		for changed := true; changed; {
+			changed = false
+			for i, d := range decls {
+				if strings.HasPrefix(d, hintMark) && !declHints[i] {
+					rest := d[len(hintMark):]
+					k := strings.Index(rest, ";")
+					if strings.Contains(ptxt, "("+rest[:k]+" ") {
+						declHints[i] = true
+						ptxt += rest[k+1:]
+						changed = true
+					}
 				}
 			}
 		}
